@@ -165,6 +165,7 @@ class Kernel:
         self.next_pid = self.FIRST_PID
         self.procs = {}
         self.real_pids = set()
+        self.real_live = set()
         self.pending = False
         self.handler = None
         self.in_handler = False
@@ -216,6 +217,7 @@ class Kernel:
                                           p2cread, p2cwrite, c2pread, c2pwrite, errread, errwrite,
                                           errpipe_read, errpipe_write, *rest)
             self.real_pids.add(pid)
+            self.real_live.add(pid)
             return pid
         self._point("fork_exec")
         envd = {}
@@ -310,6 +312,8 @@ class Kernel:
     def waitpid(self, pid, flags):
         if pid in self.real_pids:
             r = self._real["waitpid"](pid, flags)
+            if r[0] == pid:
+                self.real_live.discard(pid)
             return r
         if not self.in_handler:
             self._point("waitpid")
@@ -348,6 +352,9 @@ class Kernel:
             if self.on_block is not None:
                 self.on_block(self, fd)
             run = self.running()
+            if not run and self.real_live:
+                # a real helper process (tar) is still alive: this read really blocks on it
+                return self._real["read"](fd, n)
             if not run:
                 self.ev("deadlock", fd)
                 raise Deadlock("blocked in read(%d): nothing pending, no running child" % fd)
